@@ -65,10 +65,13 @@ IsCustom(op) == op \in {"cadd", "cmul", "csq", "cfma"}
 OpStep ==
   /\ Room /\ "op" \in Acts /\ nops < MaxOps
   /\ \E op \in Ops : \E hs \in Tuples(ArityOf(op)) :
-       /\ ApplyStatus(S, op, <<>>, hs) = "ok"
-       /\ S' = Apply(S, op, <<>>, hs, nh, Uid)
+     \* a user operation may come with a derivative although none of its operands is tracked
+     \E bw \in (IF IsCustom(op) THEN {AnyTracked(S, hs), TRUE} ELSE {FALSE}) :
+       LET par == IF IsCustom(op) THEN [bw |-> bw] ELSE <<>> IN
+       /\ ApplyStatus(S, op, par, hs) = "ok"
+       /\ S' = Apply(S, op, par, hs, nh, Uid)
        /\ Clean(S')
-       /\ prog' = Append(prog, IF IsCustom(op) THEN [op |-> op, args |-> hs, res |-> nh, bw |-> AnyTracked(S, hs)]
+       /\ prog' = Append(prog, IF IsCustom(op) THEN [op |-> op, args |-> hs, res |-> nh, bw |-> bw]
                                ELSE [op |-> op, args |-> hs, res |-> nh])
   /\ nops' = nops + 1 /\ nh' = nh + 1 /\ UNCHANGED <<npass, done>>
 
